@@ -1,8 +1,11 @@
 /-
   Driver for C07: sorting-based algorithms (greedy / round robin / uncontrolled) over a sequence
-  of `schedule()` calls.  The request / response format is documented in `AcnModel/WireSorted.lean`.
+  of `schedule()` calls, and whole simulations with the modelled algorithm as scheduler — without
+  estimator through `Sim.run` (`AcnModel/WireSorted.lean`), with the rampdown estimator through the
+  stateful loop `SimSortedRd.runSt` (`AcnModel/WireSortedRd.lean`).  The request / response format
+  is documented in those two files.
 -/
-import AcnModel.WireSorted
+import AcnModel.WireSortedRd
 open Acn.Wire
 
-def main : IO Unit := runDriver Acn.WireSorted.handle
+def main : IO Unit := runDriver Acn.WireSortedRd.handle
